@@ -41,6 +41,7 @@ MUTANTS = [
     ("C18", "scratch buffer behind a global Mutex left dirty by a failed rendering", "@patch", "/verif/tools/mutants18/g1_global_scratch_buffer.diff", None),
     ("C05", "depth counter in a global atomic left set by a failing closure", "@patch", "/verif/tools/mutants05/g1_global_depth_counter.diff", None),
     ("C16", "flag in a global atomic left set by a failed deserialization", "@patch", "/verif/tools/mutants16/g1_global_flag.diff", None),
+    ("C17", "first_derivative re-raises the callable's exception without its traceback", "@patch", "/verif/tools/mutants17/t1_traceback_stripped.diff", None),
     # ---- C16: stored form (fault-free), and errors of the data format swallowed (only under a fault at the seam) ------
     ("C16", "Dual: result of one serialize_field ignored (hand-written Serialize)", "@patch", "/verif/tools/mutants16/m1_ser_field_error_ignored.diff", None),
     ("C16", "Dual2: real part stored under another name", "@patch", "/verif/tools/mutants16/m2_field_renamed.diff", None),
